@@ -96,6 +96,29 @@ func (p *Prog) smtTextX(ob *Obligation, uses []string, reduced bool) string {
 	} else {
 		asserts = append(asserts, ob.Assume...)
 	}
+	// drop hypotheses guarded by a path condition that contradicts this obligation's path (sound: fewer facts)
+	{
+		pcSet := map[*Term]bool{}
+		for _, c := range conjuncts(ob.PC) {
+			pcSet[c] = true
+		}
+		kept := asserts[:0:0]
+		for _, a := range asserts {
+			drop := false
+			if a.Op == "=>" {
+				for _, g := range conjuncts(a.Args[0]) {
+					if pcSet[Not(g)] {
+						drop = true
+						break
+					}
+				}
+			}
+			if !drop {
+				kept = append(kept, a)
+			}
+		}
+		asserts = kept
+	}
 	asserts = append(asserts, ob.PC)
 	asserts = append(asserts, Not(ob.Goal))
 	// ground instances of table axioms at every table application
@@ -365,7 +388,12 @@ func (p *Prog) discharge(obls []*Obligation, usesOf func(*Obligation) []string, 
 			}
 			if st != "unsat" {
 				var s2 float64
-				st, sv, out, s2 = solveFile(files[i], quickSecs, fullSecs)
+				if obls[i].MustFail {
+					// vacuity guard: only a proof of false matters; do not spend the portfolio on finding a model
+					st, sv, out, s2 = solveFile(files[i], quickSecs, quickSecs)
+				} else {
+					st, sv, out, s2 = solveFile(files[i], quickSecs, fullSecs)
+				}
 				secs += s2
 			}
 			r := &Result{Ob: obls[i], Status: st, Solver: sv, Secs: secs, File: files[i], Output: out}
